@@ -96,6 +96,8 @@ struct WriteState {
     pend_every: usize, // 0 = never; k = every k-th call returns Pending (self-waking)
     calls: usize,
     budget: Option<usize>, // bytes still accepted before a scripted write error
+    block_after: Option<usize>, // bytes still accepted before the writer blocks (Pending, waker kept) until `wunblock`
+    wwaker: Option<std::task::Waker>,
 }
 #[derive(Clone, Default)]
 struct MockWrite(Rc<RefCell<WriteState>>);
@@ -111,7 +113,15 @@ impl AsyncWrite for MockWrite {
         if s.budget == Some(0) {
             return Poll::Ready(Err(io::Error::new(io::ErrorKind::Other, "scripted write error")));
         }
+        if s.block_after == Some(0) {
+            s.wwaker = Some(cx.waker().clone());
+            return Poll::Pending;
+        }
         let mut n = buf.len();
+        if let Some(b) = s.block_after {
+            n = n.min(b);
+            s.block_after = Some(b - n);
+        }
         if !s.chunks.is_empty() {
             let k = s.chunks[s.chunk_idx % s.chunks.len()].max(1);
             s.chunk_idx += 1;
@@ -864,6 +874,21 @@ impl World {
             }
             "werr" => {
                 self.wr.0.borrow_mut().budget = Some(num(args[0]));
+            }
+            "wblock" => {
+                // wblock <n>: accept n more bytes, then stay Pending (a congested socket) until `wunblock`
+                self.wr.0.borrow_mut().block_after = Some(num(args[0]));
+            }
+            "wunblock" => {
+                let w = {
+                    let mut w = self.wr.0.borrow_mut();
+                    w.block_after = None;
+                    w.wwaker.take()
+                };
+                if let Some(w) = w {
+                    w.wake();
+                }
+                self.settle();
             }
             "wmode" => {
                 // wmode <pend_every> <chunk sizes...>
